@@ -24,6 +24,77 @@ type specEnv struct {
 	nb   int
 	depth int
 	oldVars map[string]Val // values of names in the pre-state (nil: same as vars)
+	acc     *[]access      // element reads recorded while evaluating a quantifier body
+}
+
+// access: one element read s[idx] inside a quantifier body.
+type access struct {
+	heapSel string // (select H arr)
+	off     string
+	idx     string
+	full    string // the index term as emitted
+}
+
+// reindex rewrites  forall K. rng(K) => body(K)  so that the bound variable is the
+// absolute index of an array read in the body (pattern without arithmetic). One copy
+// per distinct array read that is indexed by K (+ constant offset); the copies are equivalent.
+func reindex(kind, K, lo, hi, body string, accs []access, nfr *int) string {
+	type cand struct{ heapSel, shift, full string }
+	var cands []cand
+	seen := map[string]bool{}
+	for _, a := range accs {
+		if strings.Contains(a.heapSel, K) || strings.Contains(a.off, K) {
+			continue
+		}
+		var shift string
+		switch {
+		case a.idx == K:
+			shift = a.off
+		case strings.HasPrefix(a.idx, "(+ "+K+" ") && !strings.Contains(a.idx[len("(+ "+K+" "):], K):
+			x := strings.TrimSuffix(a.idx[len("(+ "+K+" "):], ")")
+			shift = add(a.off, x)
+		case strings.HasPrefix(a.idx, "(+ ") && strings.HasSuffix(a.idx, " "+K+")") && strings.Count(a.idx, K) == 1:
+			x := a.idx[3 : len(a.idx)-len(" "+K+")")]
+			shift = add(a.off, x)
+		case strings.HasPrefix(a.idx, "(- "+K+" ") && !strings.Contains(a.idx[len("(- "+K+" "):], K):
+			x := strings.TrimSuffix(a.idx[len("(- "+K+" "):], ")")
+			shift = sub(a.off, x)
+		default:
+			continue
+		}
+		key := a.heapSel + "#" + a.full
+		if seen[key] || !strings.Contains(body, a.full) {
+			continue
+		}
+		seen[key] = true
+		cands = append(cands, cand{a.heapSel, shift, a.full})
+		if len(cands) == 3 {
+			break
+		}
+	}
+	mk := func(J, rng, b, pat string) string {
+		if kind == "forall" {
+			if pat != "" {
+				return fmt.Sprintf("(forall ((%s Int)) (! %s :pattern (%s)))", J, imp(rng, b), pat)
+			}
+			return fmt.Sprintf("(forall ((%s Int)) %s)", J, imp(rng, b))
+		}
+		return fmt.Sprintf("(exists ((%s Int)) %s)", J, and(rng, b))
+	}
+	if len(cands) == 0 || kind != "forall" {
+		return mk(K, and(le(lo, K), lt(K, hi)), body, "")
+	}
+	var copies []string
+	for _, c := range cands {
+		*nfr++
+		J := fmt.Sprintf("|J!q%d|", *nfr)
+		b := strings.ReplaceAll(body, c.full, J)
+		kexpr := sub(J, c.shift)
+		b = strings.ReplaceAll(b, K, kexpr)
+		rng := and(le(add(lo, c.shift), J), lt(J, add(hi, c.shift)))
+		copies = append(copies, mk(J, rng, b, "(select "+c.heapSel+" "+J+")"))
+	}
+	return and(copies...)
 }
 
 func (t *fnTrans) specEnv(cur, old *State) *specEnv {
@@ -304,6 +375,9 @@ func (e *specEnv) elemRead(s Val, idx string) Val {
 	for _, c := range flatten(sl.Elem()) {
 		h := e.t.heapGet(e.cur, elemHeap(sl.Elem(), c.Suffix), arr2Sort(c.Sort))
 		out = append(out, sel(sel(h, s.C[0]), add(s.C[1], idx)))
+		if e.acc != nil {
+			*e.acc = append(*e.acc, access{sel(h, s.C[0]), s.C[1], idx, add(s.C[1], idx)})
+		}
 	}
 	return Val{sl.Elem(), out}
 }
@@ -454,17 +528,17 @@ func (e *specEnv) quant(kind string, n *ast.CallExpr) Val {
 	bv := fmt.Sprintf("%s!q%d", name, e.t.nfr)
 	saved, had := e.vars[name]
 	e.vars[name] = Val{tInt, []string{q(bv)}}
+	savedAcc := e.acc
+	var accs []access
+	e.acc = &accs
 	body := e.funcBody(fl.Body)
+	e.acc = savedAcc
 	if had {
 		e.vars[name] = saved
 	} else {
 		delete(e.vars, name)
 	}
-	rng := and(le(lo, q(bv)), lt(q(bv), hi))
-	if kind == "forall" {
-		return Val{tBool, []string{fmt.Sprintf("(forall ((%s Int)) %s)", q(bv), imp(rng, body.C[0]))}}
-	}
-	return Val{tBool, []string{fmt.Sprintf("(exists ((%s Int)) %s)", q(bv), and(rng, body.C[0]))}}
+	return Val{tBool, []string{reindex(kind, q(bv), lo, hi, body.C[0], accs, &e.t.nfr)}}
 }
 
 // funcBody evaluates a spec function body: if-chains of returns.
@@ -836,16 +910,17 @@ func (e *specEnv) eqElems(a Val, sa *State, b Val, sb *State) string {
 		return "true"
 	}
 	e.t.nfr++
-	bv := q(fmt.Sprintf("k!q%d", e.t.nfr))
+	K := q(fmt.Sprintf("k!q%d", e.t.nfr))
 	var fs []string
+	var accs []access
 	for _, c := range flatten(sl.Elem()) {
 		hn := elemHeap(sl.Elem(), c.Suffix)
 		ha := e.t.heapGet(sa, hn, arr2Sort(c.Sort))
 		hb := e.t.heapGet(sb, hn, arr2Sort(c.Sort))
-		fs = append(fs, eq(sel(sel(ha, a.C[0]), add(a.C[1], bv)), sel(sel(hb, b.C[0]), add(b.C[1], bv))))
+		fs = append(fs, eq(sel(sel(ha, a.C[0]), add(a.C[1], K)), sel(sel(hb, b.C[0]), add(b.C[1], K))))
+		accs = append(accs, access{sel(ha, a.C[0]), a.C[1], K, add(a.C[1], K)}, access{sel(hb, b.C[0]), b.C[1], K, add(b.C[1], K)})
 	}
-	return and(eq(a.C[2], b.C[2]),
-		fmt.Sprintf("(forall ((%s Int)) %s)", bv, imp(and(le("0", bv), lt(bv, a.C[2])), and(fs...))))
+	return and(eq(a.C[2], b.C[2]), reindex("forall", K, "0", a.C[2], and(fs...), accs, &e.t.nfr))
 }
 
 // inline expands a spec function (executable Go in the contract file).
@@ -866,7 +941,7 @@ func (e *specEnv) inline(fd *ast.FuncDecl, pkg *types.Package, args []ast.Expr) 
 	}
 	// parameter types from the types.Func
 	fobj, _ := pkg.Scope().Lookup(fd.Name.Name).(*types.Func)
-	sub := &specEnv{t: e.t, vars: map[string]Val{}, lvs: map[string]*LVal{}, cur: e.cur, old: e.old, pkg: pkg, depth: e.depth + 1}
+	sub := &specEnv{t: e.t, vars: map[string]Val{}, lvs: map[string]*LVal{}, cur: e.cur, old: e.old, pkg: pkg, depth: e.depth + 1, acc: e.acc}
 	for i, a := range args {
 		v := e.eval(a)
 		if fobj != nil {
